@@ -370,13 +370,16 @@ H0S = [-0.5667, -0.8333, 0.125]
 THETA0, DT = 177.74208, 56.0
 
 
-def body(a0, d0, ar, dr, t):
-    return (a0 + ar * t) % 360.0, d0 + dr * t
+def body(a0, d0, ar, dr, t, acc=(0.0, 0.0)):
+    """Position at day t: linear motion plus an acceleration (deg/day^2); the routine's three-point interpolation
+    is exact for it."""
+    return (a0 + ar * t + acc[0] * t * t) % 360.0, d0 + dr * t + acc[1] * t * t
 
 
 def check_rts(case):
     lon_w, lat, a0, d0, (ar, dr), h0 = case["lon_w"], case["lat"], case["a0"], case["d0"], case["motion"], case["h0"]
-    A = [body(a0, d0, ar, dr, t) for t in (-1, 0, 1)]
+    acc = tuple(case.get("accel", (0.0, 0.0)))
+    A = [body(a0, d0, ar, dr, t, acc) for t in (-1, 0, 1)]
     theta0 = case.get("theta0", THETA0)
     args = [Angle(lon_w), Angle(lat)] + [Angle(v) for p in A for v in p] + [Angle(h0), DT, Angle(theta0)]
     before = [x._deg for x in args if isinstance(x, Angle)]
@@ -406,7 +409,7 @@ def check_rts(case):
     def alt_ha(ut_h):
         m = ut_h / 24.0
         n = m + DT / 86400.0
-        a, d = body(a0, d0, ar, dr, n)
+        a, d = body(a0, d0, ar, dr, n, acc)
         th = theta0 + 360.985647 * m
         H = th - lon_w - a
         az, el = equatorial2horizontal(Angle(H), Angle(d), Angle(lat))
@@ -456,6 +459,37 @@ def rts_seam_cases():
     return out
 
 
+def rts_accelerated_cases():
+    """Bodies whose daily motion changes from one day to the next (comets, near-Earth asteroids): 0.03 .. 0.15
+    deg/day^2 on top of motions of up to 1.5 deg/day - the second differences of the interpolation matter."""
+    return [{"lon_w": lw, "lat": la, "a0": a0, "d0": d0, "motion": list(mo), "h0": -0.5667, "accel": list(ac)}
+            for lw in (71.0833, -120.0) for la in (0.0, 42.3333, -60.0) for a0 in (41.73, 180.0, 300.0) for d0 in (-18.0, 18.44)
+            for mo in ((1.05, 0.39), (-1.5, -1.0), (0.3, -1.5)) for ac in ((0.06, 0.04), (-0.1, 0.05), (0.15, -0.1), (0.0, 0.12))]
+
+
+def rts_dense_seam_cases():
+    """Fast bodies with an event within +-6 minutes of 0h UT on a 0.17-second grid: where an intermediate correction
+    of ONE of the three events happens to vanish is not a round number."""
+    out = []
+    h0 = -0.5667
+    # (the last family: a low southern body for a northern observer, moving 1.3 deg/day in both coordinates - a short
+    # diurnal arc, where a rising or setting time left after ONE correction pass is 0.04 degree of altitude off)
+    for lw, la, d0, motions in ((71.0833, 42.3333, 18.44, ((1.05, 0.39), (-1.5, -1.0))),
+                                (71.0833, 0.0, 18.44, ((1.05, 0.39), (-1.5, -1.0))),
+                                (-109.98, 46.3, -27.18, ((-1.3, 1.27), (1.3, -1.27)))):
+        cosH = (math.sin(math.radians(h0)) - math.sin(math.radians(la)) * math.sin(math.radians(d0))) / \
+            (math.cos(math.radians(la)) * math.cos(math.radians(d0)))
+        H0 = math.degrees(math.acos(cosH))
+        for mo in motions:
+            for ev, sh in (("transit", 0.0), ("rise", H0), ("set", -H0)):
+                for k in range(-2000, 2001):
+                    eps = k * 2e-6
+                    a0 = (THETA0 - lw + sh + 360.0 * (1.0 - eps)) % 360.0
+                    out.append({"lon_w": lw, "lat": la, "a0": a0, "d0": d0, "motion": list(mo), "h0": h0, "seam": ev,
+                                "eps": eps})
+    return out
+
+
 def rts_zero_hour_cases():
     """Bodies whose right ascension passes 0h = 24h during the three days (prograde and retrograde, slow and fast),
     seen from eastern and western longitudes at four sidereal times: the hour-angle reductions by +-360 degrees."""
@@ -471,7 +505,7 @@ def run_rts(block, ctx):
         for site, msg, dev in res:
             ctx.viol(case, msg, dev=dev, site=site)
             ctx.maxi(site, dev)
-        if case.get("seam") or case["a0"] > 350 or abs(case["d0"]) >= 60:
+        if case.get("seam") or case.get("accel") or case["a0"] > 350 or abs(case["d0"]) >= 60:
             ctx.nt_count += 1
         ctx.outcome((case["lat"], case["d0"], len(res)))
     ctx.sample(block[0])
@@ -526,6 +560,10 @@ def clauses(tier):
                lambda c: [m for _, m, _ in check_riseset(c)], floor=100),
         Clause("rise_transit_set", chunks(rts_cases(), 32), run_rts,
                lambda c: [m for _, m, _ in check_rts(c)], floor=200),
+        Clause("rts_accelerated", chunks(rts_accelerated_cases(), 16), run_rts,
+               lambda c: [m for _, m, _ in check_rts(c)], floor=200),
+        Clause("rts_dense_seam", chunks(rts_dense_seam_cases(), 64), run_rts,
+               lambda c: [m for _, m, _ in check_rts(c)], floor=20000),
         Clause("rts_day_seam", chunks(rts_seam_cases() + rts_zero_hour_cases(), 16), run_rts,
                lambda c: [m for _, m, _ in check_rts(c)], floor=200),
         Clause("rts_threshold", chunks(threshold_cases(tier), 32), run_threshold,
